@@ -58,6 +58,11 @@ func main() {
 	if err := os.MkdirAll(*out, 0o755); err != nil {
 		panic(err)
 	}
+	defer func() {
+		if procTmpRoot != "" {
+			_ = os.RemoveAll(procTmpRoot)
+		}
+	}()
 	var cases []Case
 	if p.Corpus != nil {
 		cases = append(cases, p.Corpus()...)
@@ -152,4 +157,20 @@ func main() {
 		"shards": nshards, "corpus": ncorpus, "extra": extra, "extra_fail": extraFail}
 	b, _ := json.MarshalIndent(sum, "", " ")
 	_ = os.WriteFile(filepath.Join(*out, "summary.json"), b, 0o644)
+}
+
+// every run of the harness works in its own temporary directory (two checks may run at once)
+var procTmpRoot string
+
+func procTmp(name string) string {
+	if procTmpRoot == "" {
+		d, err := os.MkdirTemp("", "ytcheck-")
+		if err != nil {
+			d = filepath.Join(os.TempDir(), fmt.Sprintf("ytcheck-%d", os.Getpid()))
+		}
+		procTmpRoot = d
+	}
+	d := filepath.Join(procTmpRoot, name)
+	_ = os.MkdirAll(d, 0o755)
+	return d
 }
